@@ -1,4 +1,4 @@
-import NdnVerif.Driver.Common
+import NdnVerif.C18.DriverLoop
 import NdnVerif.C18.Model
 import NdnVerif.C18.Spec
 open Ndn Ndn.Driver Ndn.C18
@@ -14,6 +14,7 @@ structure SpecSt where
   pending : List (Nat × Nat) := []    -- directed links not yet exchanged in the current fair round
   rounds : Nat := 0                   -- complete fair rounds since the last disturbance
   stable : Option String := none      -- dump at the last converged check since the last disturbance
+  seen : List (List (Nat × Nat) × String) := []  -- converged dump per topology (sorted link list)
 
 structure St where
   net : Net := []
@@ -166,7 +167,7 @@ def step (s : St) (op : String) (got : String) : StepResult St :=
       if !converged then [] else
       ((List.range sp.n).zip advs).flatMap fun (u, a) =>
         match a with
-        | some adv => (Spec.shortestPathFailures t sp.keys u adv).map fun m =>
+        | some adv => (Spec.shortestPathFailures t u adv).map fun m =>
             ⟨"shortest-path-at-quiescence", s!"n={sp.n}", s!"after {sp.rounds} fair rounds: {m}"⟩
         | none => []
     let stableFails : List SpecFail :=
@@ -175,16 +176,26 @@ def step (s : St) (op : String) (got : String) : StepResult St :=
       | some prev => if prev == got then [] else
           [⟨"fixed-point-stable", s!"n={sp.n}", s!"tables still change after {sp.rounds} fair rounds: {prev}  -->  {got}"⟩]
       | none => []
-    let sp' := if converged then { sp with stable := some got } else sp
+    let sig := sp.links.mergeSort fun a b => a.1 < b.1 || (a.1 == b.1 && a.2 ≤ b.2)
+    let detFails : List SpecFail :=
+      if !converged then [] else
+      match sp.seen.find? (·.1 == sig) with
+      | some (_, prev) => if prev == got then [] else
+          [⟨"tie-break-deterministic", s!"n={sp.n}", s!"the same topology led to different tables under another schedule: {prev}  -->  {got}"⟩]
+      | none => []
+    let sp' := if converged then
+        { sp with stable := some got, seen := if (sp.seen.find? (·.1 == sig)).isSome then sp.seen else (sig, got) :: sp.seen }
+      else sp
     let hasUnreach := converged && (List.range sp.n).any fun d => (Spec.distsTo t d).any fun k => k ≥ Spec.infinity
     { st := { s with sp := sp' }, expected := some (dumpAll s.keys s.net),
-      spec := finiteFails ++ spFails ++ stableFails,
+      spec := finiteFails ++ spFails ++ stableFails ++ detFails,
       cov := (if converged then ["check-converged"] else ["check-early"]) ++
              (if converged && sp.stable.isSome then ["check-stable"] else []) ++
+             (if converged && (sp.seen.find? (·.1 == sig)).isSome && sp.stable.isNone then ["check-same-topology-again"] else []) ++
              (if hasUnreach then ["unreachable-withdrawn"] else []),
       nontrivial := converged && sp.n ≥ 3 }
   | _ => { st := s, expected := some "bad-op" }
 
 end C18Drv
 
-def main : IO Unit := Ndn.Driver.run ({} : C18Drv.St) C18Drv.step
+def main : IO Unit := Ndn.Driver.runResilient ({} : C18Drv.St) C18Drv.step
